@@ -153,11 +153,22 @@ def run(res, tier, seed, driver_ok):
         except Exception as e:
             bad('raises:arm-setup:%s' % type(e).__name__, 'setting up an arm with explicit spatial inertias raised', {}, repr(e)); break
         q = np.array([r2.uniform(-math.pi, math.pi) for _ in range(n)]); qd = np.array([r2.uniform(-2, 2) for _ in range(n)]); qdd = np.array([r2.uniform(-2, 2) for _ in range(n)])
-        gv = np.array([0, 0, -9.81]); Fz = np.zeros(6)
+        gv = np.array([0, 0, -9.81])
+        # tip wrench [moment; force]: none, dense, pure moment, pure force, a single basis wrench
+        wk = r2.choice(['zero', 'dense', 'dense', 'moment', 'force', 'basis'])
+        Fz = np.zeros(6)
+        if wk == 'dense':
+            Fz = np.array([r2.uniform(-20, 20) for _ in range(6)])
+        elif wk == 'moment':
+            Fz[:3] = [r2.uniform(-20, 20) for _ in range(3)]
+        elif wk == 'force':
+            Fz[3:] = [r2.uniform(-20, 20) for _ in range(3)]
+        elif wk == 'basis':
+            Fz[r2.randrange(6)] = r2.choice([-1.0, 1.0]) * r2.uniform(1, 20)
         Mlist = np.array([x.gTM() for x in rel]); Sl = np.asarray(arm.screw_list, dtype=float)
         ref = mr.InverseDynamics(q, qd, qdd, gv, Fz, Mlist, Gl, Sl)
         res.evaluations += 1
-        inpa = {'arm': 'six_r' if k % 2 == 0 else 'random%d' % n, 'q': q.tolist(), 'qd': qd.tolist(), 'qdd': qdd.tolist()}
+        inpa = {'arm': 'six_r' if k % 2 == 0 else 'random%d' % n, 'q': q.tolist(), 'qd': qd.tolist(), 'qdd': qdd.tolist(), 'tip_wrench': Fz.tolist(), 'tip_wrench_kind': wk}
         for name, call in (('inverseDynamics', lambda: arm.inverseDynamics(q.copy(), qd.copy(), qdd.copy(), gv, Fz.reshape((6, 1)))[0]),
                            ('inverseDynamicsEMR', lambda: arm.inverseDynamicsEMR(q.copy(), qd.copy(), qdd.copy(), gv, Fz)),
                            ('inverseDynamicsC', lambda: arm.inverseDynamicsC(q.copy(), qd.copy(), qdd.copy(), gv, Fz.reshape((6, 1)))[0])):
